@@ -666,6 +666,108 @@ fn e1_scenario(name: &str, threads: Vec<Vec<Op>>) -> Scenario<S> {
     }
 }
 
+// ------------------------------------------------------------------ E1: get-or-create applies its operation to the live storage
+/// a storage with a value (every access is a scheduling point)
+struct Val {
+    id: usize,
+    v: metrics::verif::atomic::AtomicU64,
+}
+impl CounterFn for Val {
+    fn increment(&self, d: u64) {
+        self.v.fetch_add(d, Ordering::SeqCst);
+    }
+    fn absolute(&self, _: u64) {}
+}
+impl GaugeFn for Val {
+    fn increment(&self, _: f64) {}
+    fn decrement(&self, _: f64) {}
+    fn set(&self, _: f64) {}
+}
+impl HistogramFn for Val {
+    fn record(&self, _: f64) {
+        self.v.fetch_add(5, Ordering::SeqCst);
+    }
+}
+struct ValStorage(Arc<AtomicUsize>);
+impl Storage<Key> for ValStorage {
+    type Counter = Arc<Val>;
+    type Gauge = Arc<Val>;
+    type Histogram = Arc<Val>;
+    fn counter(&self, _: &Key) -> Arc<Val> {
+        Arc::new(Val { id: self.0.fetch_add(1, Ordering::SeqCst), v: metrics::verif::atomic::AtomicU64::new(0) })
+    }
+    fn gauge(&self, _: &Key) -> Arc<Val> {
+        Arc::new(Val { id: self.0.fetch_add(1, Ordering::SeqCst), v: metrics::verif::atomic::AtomicU64::new(0) })
+    }
+    fn histogram(&self, _: &Key) -> Arc<Val> {
+        Arc::new(Val { id: self.0.fetch_add(1, Ordering::SeqCst), v: metrics::verif::atomic::AtomicU64::new(0) })
+    }
+}
+struct SV {
+    reg: Registry<Key, ValStorage>,
+    made: Arc<AtomicUsize>,
+    /// (thread, what, value) in the order the calls returned
+    log: Log<(usize, &'static str, u64)>,
+    k3: String,
+}
+/// Three threads get-or-create the same key and add 5 each (the operation is part of the call); a fourth kind of actor
+/// sweeps with the value-dependent predicate "drop what is still zero" and lists the live handles. In the single atomic
+/// map every live storage has had its creating operation applied, so the sweep removes nothing, all three additions land
+/// on the one storage (the calls see 5, 10, 15 in some order), one storage is ever built, and the final value is 15.
+fn e1_value_scenario(kind: Kind) -> Scenario<SV> {
+    let add = move |s: &SV, t: usize, ki: usize| {
+        let key = mk_key(ki, &s.k3);
+        let r = match kind {
+            Kind::C => s.reg.get_or_create_counter(&key, |c| c.v.fetch_add(5, Ordering::SeqCst) + 5),
+            Kind::G => s.reg.get_or_create_gauge(&key, |c| c.v.fetch_add(5, Ordering::SeqCst) + 5),
+            Kind::H => s.reg.get_or_create_histogram(&key, |c| c.v.fetch_add(5, Ordering::SeqCst) + 5),
+        };
+        s.log.push((t, "add", r));
+    };
+    let sweep = move |s: &SV, t: usize| {
+        match kind {
+            Kind::C => s.reg.retain_counters(|_, c| c.v.load(Ordering::SeqCst) != 0),
+            Kind::G => s.reg.retain_gauges(|_, c| c.v.load(Ordering::SeqCst) != 0),
+            Kind::H => s.reg.retain_histograms(|_, c| c.v.load(Ordering::SeqCst) != 0),
+        }
+        s.log.push((t, "sweep", 0));
+    };
+    Scenario {
+        name: format!("{:?}: t0 goc(k1,+5) x2 | t1 retain(drop what is still 0), goc(k1',+5) | final get", kind),
+        setup: Box::new(|| {
+            let made = Arc::new(AtomicUsize::new(0));
+            SV { reg: Registry::new(ValStorage(made.clone())), made, log: Log::new(), k3: find_k3() }
+        }),
+        bodies: vec![
+            body(move |s: &SV| {
+                add(s, 0, 0);
+                add(s, 0, 0);
+            }),
+            body(move |s: &SV| {
+                sweep(s, 1);
+                add(s, 1, 1);
+            }),
+        ],
+        check: Box::new(move |s, _| {
+            let log = s.log.get();
+            let mut adds: Vec<u64> = log.iter().filter(|e| e.1 == "add").map(|e| e.2).collect();
+            adds.sort_unstable();
+            let key = mk_key(0, &s.k3);
+            let fin = match kind {
+                Kind::C => s.reg.get_counter(&key).map(|c| c.v.load(Ordering::SeqCst)),
+                Kind::G => s.reg.get_gauge(&key).map(|c| c.v.load(Ordering::SeqCst)),
+                Kind::H => s.reg.get_histogram(&key).map(|c| c.v.load(Ordering::SeqCst)),
+            };
+            let made = s.made.load(Ordering::SeqCst);
+            if adds != vec![5, 10, 15] || fin != Some(15) || made != 1 {
+                return fail("update-applied-to-a-storage-that-is-not-the-live-one", format!("three get-or-create(key, +5) calls and one retain(value != 0): the calls saw {:?} (expected 5, 10, 15), the key finally holds {:?} (expected 15), {} storages were built (expected 1); log {:?}: an operation ran on a storage that was not (or no longer) the one the map holds for the key", adds, fin, made, log));
+            }
+            Verdict::Ok(format!("{:?}", log.iter().map(|e| (e.0, e.1)).collect::<Vec<_>>()))
+        }),
+        termination_promised: true,
+    }
+}
+
 fn parts(ctx: &Ctx) -> Vec<PartSpec> {
     let mut v = Vec::new();
     let n = alphabet().len();
@@ -681,6 +783,9 @@ fn parts(ctx: &Ctx) -> Vec<PartSpec> {
         for s in ["create-create-delete", "create-retain-clear", "two-kinds-two-keys", "shared-static-key", "histogram-gauge-race", "two-removers", "remover-vs-sweeps"] {
             v.push(PartSpec::new(&format!("e1-{}-pb2", s), json!({"e1": s, "pb": 2})).cpus("0"));
         }
+        for k in ["C", "G", "H"] {
+            v.push(PartSpec::new(&format!("e1-create-and-operate-vs-value-retain-{}-pb2", k), json!({"e1v": k, "pb": 2})).cpus("0"));
+        }
         // with 16 shards a wrong hash also selects a wrong shard
         v.push(PartSpec::new("e1-shared-static-key-pb2-16shards", json!({"e1": "shared-static-key", "pb": 2})));
         v.push(PartSpec::new("e1-create-create-delete-pb1-16shards", json!({"e1": "create-create-delete", "pb": 1})));
@@ -694,6 +799,9 @@ fn parts(ctx: &Ctx) -> Vec<PartSpec> {
         v.push(PartSpec::new("e3-samename-d6-1shard", json!({"depth": 6, "samename": true})).cpus("0").budget(1500.0));
         for s in ["create-create-delete", "create-retain-clear", "two-kinds-two-keys", "shared-static-key", "histogram-gauge-race", "two-removers", "remover-vs-sweeps"] {
             v.push(PartSpec::new(&format!("e1-{}-pb3", s), json!({"e1": s, "pb": 3})).cpus("1").budget(1500.0));
+        }
+        for k in ["C", "G", "H"] {
+            v.push(PartSpec::new(&format!("e1-create-and-operate-vs-value-retain-{}-pb4", k), json!({"e1v": k, "pb": 4})).cpus("1").budget(1500.0));
         }
         v.push(PartSpec::new("e1-create-create-delete-pb2-16shards", json!({"e1": "create-create-delete", "pb": 2})).budget(1500.0));
         v.push(PartSpec::new("e1-shared-static-key-pb3-16shards", json!({"e1": "shared-static-key", "pb": 3})).budget(1500.0));
@@ -710,6 +818,15 @@ fn run(ctx: &Ctx, spec: &PartSpec) -> PartResult {
     }
     if let Some(d) = spec.arg["custom"].as_u64() {
         custom_key_part(ctx, &mut res, d as usize);
+        return res;
+    }
+    if let Some(k) = spec.arg["e1v"].as_str() {
+        let scn = e1_value_scenario(match k {
+            "C" => Kind::C,
+            "G" => Kind::G,
+            _ => Kind::H,
+        });
+        vsched::explore(&scn, &Cfg { max_bound: spec.arg["pb"].as_u64().unwrap_or(2) as usize, horizon: 20000 }, ctx, &mut res);
         return res;
     }
     if let Some(s) = spec.arg["e1"].as_str() {
